@@ -691,17 +691,8 @@ func runReplay(path string, verbose bool) (verdict, output string) {
 		return engineReplay(&rf)
 	}
 	abs, _ := filepath.Abs(path)
-	src := fmt.Sprintf(`package %s
-
-import (
-	"testing"
-
-	vx "github.com/free5gc/chf/zzvx"
-)
-
-func TestZZReplay(t *testing.T) { vx.RunReplay(t, %q, %s) }
-`, pkgName(rf.Pkg), abs, rf.Func)
-	out, _ := nativeTest(rf.Pkg, src, "^TestZZReplay$", nil, 120*time.Second)
+	testPkg, src := testSource(rf.Pkg, "TestZZReplay", fmt.Sprintf("vx.RunReplay(t, %q, %%s)", abs), rf.Func)
+	out, _ := nativeTest(testPkg, src, "^TestZZReplay$", nil, 120*time.Second)
 	verdict = "not reproduced"
 	for _, l := range strings.Split(out, "\n") {
 		l = strings.TrimSpace(l)
@@ -746,17 +737,8 @@ func TestZZReplay(t *testing.T) { vx.RunReplay(t, %q, %s) }
 // validateNative runs a concrete ZZV_ harness natively and compares the
 // emitted lines with the ones the engine produced.
 func validateNative(r *harnessResult) (int, error) {
-	src := fmt.Sprintf(`package %s
-
-import (
-	"testing"
-
-	vx "github.com/free5gc/chf/zzvx"
-)
-
-func TestZZValidate(t *testing.T) { vx.RunEmit(t, %s) }
-`, pkgName(r.Spec.RelDir), r.Spec.Func)
-	out, _ := nativeTest(r.Spec.RelDir, src, "^TestZZValidate$", nil, 300*time.Second)
+	testPkg, src := testSource(r.Spec.RelDir, "TestZZValidate", "vx.RunEmit(t, %s)", r.Spec.Func)
+	out, _ := nativeTest(testPkg, src, "^TestZZValidate$", nil, 300*time.Second)
 	var native []string
 	for _, l := range strings.Split(out, "\n") {
 		if i := strings.Index(l, "EMIT: "); i >= 0 {
@@ -868,4 +850,34 @@ func engineReplay(rf *replayFile) (verdict, output string) {
 		verdict = "not reproduced"
 	}
 	return verdict, sb.String()
+}
+
+// testSource generates the native test file for harness fn of package dir
+// pkgRel. A package that exists only in the overlay has no directory to run a
+// test in, so its harness is called from a test placed in /repo/cmd (package
+// main), which nothing imports.
+func testSource(pkgRel, testName, callFmt, fn string) (testPkg, src string) {
+	if st, err := os.Stat(filepath.Join(repoDir, pkgRel)); err == nil && st.IsDir() {
+		return pkgRel, fmt.Sprintf(`package %s
+
+import (
+	"testing"
+
+	vx "github.com/free5gc/chf/zzvx"
+)
+
+func %s(t *testing.T) { `+callFmt+` }
+`, pkgName(pkgRel), testName, fn)
+	}
+	return "cmd", fmt.Sprintf(`package main
+
+import (
+	"testing"
+
+	zzpkg "github.com/free5gc/chf/%s"
+	vx "github.com/free5gc/chf/zzvx"
+)
+
+func %s(t *testing.T) { `+callFmt+` }
+`, filepath.ToSlash(pkgRel), testName, "zzpkg."+fn)
 }
